@@ -361,7 +361,7 @@ Section RegStep.
           subs := upd (subs st) s {| s_key := k; s_tid := t; s_conn := c; s_hb := hb; s_removed := false; s_closed := 0; s_ctxc := cx |};
           ntrig := ntrig st;
           trigs := upd (trigs st) t (trg_set_subs (trigs st t) (t_subs (trigs st t) ++ [s]));
-          threads := threads st; log := log st |}.
+          threads := threads st; log := log st; wlk := wlk st |}.
   Proof.
     intros st s k c hb t cx H Hf Hl. apply lookup_reg_In in Hl.
     destruct (rg_ent _ H _ _ Hl) as (Htn & Htk & Hne).
@@ -403,7 +403,7 @@ Section RegStep.
           ntrig := S (ntrig st);
           trigs := upd (trigs st) (ntrig st) {| t_key := k; t_subs := [s]; t_init := false; t_cancelled := false; t_done := false;
                                               t_ulock := false; t_wg := []; t_started := 0 |};
-          threads := threads st; log := log st |}.
+          threads := threads st; log := log st; wlk := wlk st |}.
   Proof.
     intros st s k c hb cx H Hf Hl. apply lookup_reg_None in Hl.
     assert (Hnb : ~ In s (byid st)) by (intro Hi; apply Hf, (rg_byid _ H s Hi)).
